@@ -83,11 +83,11 @@ def removeUnused (vols : List (Nat × Vol)) : List (Nat × Vol) :=
 /-- the post-processing of `convertMCNPGeometry` -/
 def postProcess (dedup : Bool) (surfs : List (Nat × String)) (unionIds : Nat × Nat)
     (vols : List (Nat × Vol)) : List Nat × List (Nat × Vol) :=
-  let (kept, vols1) :=
-    if dedup then
-      let (kept, ren) := removeDuplicates surfs
-      (kept, renumberVols ren vols)
-    else (surfs.map (·.1), vols)
-  (kept, removeUnused (removeEmpty unionIds vols1))
+  if dedup then
+    let (kept, ren) := removeDuplicates surfs
+    -- the auxiliary union planes follow the renumbering, too
+    let u' := (renumOf ren unionIds.1, renumOf ren unionIds.2)
+    (kept, removeUnused (removeEmpty u' (renumberVols ren vols)))
+  else (surfs.map (·.1), removeUnused (removeEmpty unionIds vols))
 
 end T4V
